@@ -126,6 +126,38 @@ func (e *Engine) forkCallee(fr *frame, in ssa.Instruction) *ssa.Function {
 	return fn
 }
 
+// callUnderDefers executes a call instruction of a frame that has deferred calls pending and
+// catches a panic of the program under analysis raised below it. It reports whether the path
+// ended here (the panic was recovered and the function returned, or the panic went on).
+func (e *Engine) callUnderDefers(fr *frame, st *St, x ssa.Value) (ended bool) {
+	splits0 := e.splits
+	savedStack, savedPos, savedCur := e.stack, e.posStack, e.cur
+	var u *unwind
+	func() {
+		defer func() {
+			if r := recover(); r != nil {
+				uw, ok := r.(*unwind)
+				if !ok {
+					panic(r)
+				}
+				u = uw
+			}
+		}()
+		st.env[x] = e.evalInstr(fr, st, x)
+	}()
+	if u == nil {
+		return false
+	}
+	e.stack, e.posStack, e.cur = savedStack, savedPos, savedCur
+	if e.splits != splits0 {
+		e.unsupported("panic below a function with deferred calls after the execution had branched (other paths would be lost)")
+	}
+	// the panicking state continues this path: take over its condition and memory
+	st.pc, st.heap = u.st.pc, u.st.heap
+	e.panicInFrame(fr, st, u)
+	return true
+}
+
 func (e *Engine) execBlockFrom(fr *frame, b *ssa.BasicBlock, start int, st *St, deliver func(from, to *ssa.BasicBlock, s *St)) {
 	top := len(e.posStack) - 1
 	for idx := start; idx < len(b.Instrs); idx++ {
@@ -166,6 +198,7 @@ func (e *Engine) execBlockFrom(fr *frame, b *ssa.BasicBlock, start int, st *St, 
 								cont = st
 							} else {
 								cont = st.fork()
+								e.splits++
 							}
 							cont.pc = pc
 							cont.env[ixv] = c
@@ -182,7 +215,35 @@ func (e *Engine) execBlockFrom(fr *frame, b *ssa.BasicBlock, start int, st *St, 
 			for i, a := range call.Call.Args {
 				args[i] = e.val(st, a)
 			}
-			rets := e.callMulti(st, fn, args, nil)
+			var rets []retRec
+			if fr.hasDefer && e.booting == 0 {
+				splits0 := e.splits
+				savedStack, savedPos, savedCur := e.stack, e.posStack, e.cur
+				var u *unwind
+				func() {
+					defer func() {
+						if r := recover(); r != nil {
+							uw, ok := r.(*unwind)
+							if !ok {
+								panic(r)
+							}
+							u = uw
+						}
+					}()
+					rets = e.callMulti(st, fn, args, nil)
+				}()
+				if u != nil {
+					e.stack, e.posStack, e.cur = savedStack, savedPos, savedCur
+					if e.splits != splits0 {
+						e.unsupported("panic below a function with deferred calls after the execution had branched (other paths would be lost)")
+					}
+					st.pc, st.heap = u.st.pc, u.st.heap
+					e.panicInFrame(fr, st, u)
+					return
+				}
+			} else {
+				rets = e.callMulti(st, fn, args, nil)
+			}
 			for k, r := range rets {
 				if r.st.pc.IsFalse() {
 					continue
@@ -240,6 +301,7 @@ func (e *Engine) execBlockFrom(fr *frame, b *ssa.BasicBlock, start int, st *St, 
 				return
 			}
 			f := st.fork()
+			e.splits++
 			st.pc, f.pc = tpc, fpc
 			deliver(b, b.Succs[0], st)
 			deliver(b, b.Succs[1], f)
@@ -258,6 +320,10 @@ func (e *Engine) execBlockFrom(fr *frame, b *ssa.BasicBlock, start int, st *St, 
 					msg = "panic: " + c.Value.ExactString()
 				}
 			}
+			if e.deferFrames > 0 && e.booting == 0 {
+				e.panicInFrame(fr, st, &unwind{val: e.val(st, x.X), st: st, msg: msg, pos: e.posStr(x.Pos()), stk: e.where()})
+				return
+			}
 			e.Panics = append(e.Panics, Record{Cond: st.pc, Msg: msg, Pos: e.posStr(x.Pos()), Stack: e.where(), Kind: "explicit-panic"})
 			st.pc = e.S.False
 			return
@@ -266,14 +332,40 @@ func (e *Engine) execBlockFrom(fr *frame, b *ssa.BasicBlock, start int, st *St, 
 		case *ssa.MapUpdate:
 			e.mapUpdate(st, e.val(st, x.Map).(*MapV), e.val(st, x.Key), e.val(st, x.Value))
 		case *ssa.RunDefers:
-			// functions with defers are rejected at the Defer instruction
+			e.runDefers(fr, st)
 		case *ssa.Defer:
-			e.unsupported("defer")
+			if x.Call.IsInvoke() {
+				e.unsupported("defer of an interface method call")
+			}
+			d := deferRec{call: &x.Call}
+			for _, a := range x.Call.Args {
+				d.args = append(d.args, e.val(st, a))
+			}
+			switch f := x.Call.Value.(type) {
+			case *ssa.Function:
+				d.fn = f
+			case *ssa.Builtin:
+				e.unsupported("defer of a builtin")
+			default:
+				fv, ok := e.val(st, x.Call.Value).(*FuncV)
+				if !ok {
+					e.unsupported("defer of an unknown function value")
+				}
+				d.fv = fv
+			}
+			st.env[fr.fn] = &deferList{recs: append(append([]deferRec{}, fr.defers(st)...), d)}
+			e.deferFrames++
 		case *ssa.Go:
 			e.unsupported("go statement")
 		case *ssa.Send, *ssa.Select:
 			e.unsupported("channel operation")
 		case ssa.Value:
+			if _, isCall := x.(*ssa.Call); isCall && fr.hasDefer && e.booting == 0 {
+				if e.callUnderDefers(fr, st, x) {
+					return
+				}
+				continue
+			}
 			v := e.evalInstr(fr, st, x)
 			st.env[x] = v
 		default:
